@@ -2,19 +2,21 @@
 (* Model-checking wrapper for Selector and export of the cases (database, matcher set, the series the       *)
 (* DEFINITION selects, the series the transcribed MECHANISM selects, the traits) that harness/cmd/c17        *)
 (* concretises and runs through the real selectors.                                                          *)
-(* Plans = set of <<s, m>>: all databases of <= s series x all matcher sets of <= m matchers are cases       *)
+(* Plans = set of numbers 100*s + m (TLC configuration files have no tuples): all databases of <= s series x all matcher sets of <= m matchers are cases       *)
 (* (checked as states under CONSTRAINT PlanOK and exported); on top SampleDB x SampleMS random databases /   *)
 (* matcher sets of the bounds SampleSeries / SampleMatchers are exported (and checked inside Export).        *)
 EXTENDS Selector, Json, Randomization
 
 CONSTANTS Plans, SampleDB, SampleMS, SampleSeries, SampleMatchers, OutFile
 
-InPlan(d, M) == \E p \in Plans : Cardinality(d) <= p[1] /\ Cardinality(M) <= p[2]
+PS(p) == p \div 100
+PM(p) == p % 100
+InPlan(d, M) == \E p \in Plans : Cardinality(d) <= PS(p) /\ Cardinality(M) <= PM(p)
 PlanOK == IsCase => InPlan(db, ms)
 
 CaseOf(d, M) == [db |-> d, ms |-> M, def |-> Selected(d, M), mech |-> MechSelected(d, M), traits |-> Traits(d, M)]
 MSetsK(k) == UpTo(Matchers, k) \ (IF AllowEmpty THEN {} ELSE {{}})
-PlanCases == UNION {{CaseOf(d, M) : d \in UpTo(Series, p[1]), M \in MSetsK(p[2])} : p \in Plans}
+PlanCases == UNION {{CaseOf(d, M) : d \in UpTo(Series, PS(p)), M \in MSetsK(PM(p))} : p \in Plans}
 SampleCases == IF SampleDB = 0 \/ SampleMS = 0 THEN {}
                ELSE {CaseOf(d, M) : d \in RandomSubset(SampleDB, UpTo(Series, SampleSeries)),
                                     M \in RandomSubset(SampleMS, MSetsK(SampleMatchers))}
